@@ -101,7 +101,8 @@ CHECKS.update({
                      "ready / busy / stopped and a request must never reach an unverified peer. Verify-only disconnect: also for a "
                      "verifying headers message that stops short of its declared length (VerifyOnlyNeverWaits) and for a peer that "
                      "never reads (OutChannel.tla: StopCompletes / NobodyLeftBlocked with an unfair peer; the reverse closing order is "
-                     "rejected by TLC on every run and its blocked schedule is played on the real node).",
+                     "rejected by TLC on every run and its blocked schedule is played on the real node; thorough: Apalache establishes "
+                     "the structural invariant of OutChannel inductively for every capacity 1..1000).",
                 technique="TLA+ model checking (TLC) + spec-generated sessions replayed on the real node", note=SESS_NOTE),
     "C14": dict(level="model_checking", engine="session", ref="3 C14",
                 text="PingAnswered, NeverDeafWhileReady (only a message cut short makes the read loop wait), InSyncWhileReady checked by TLC on PeerSession.tla; conformant "
